@@ -12,6 +12,7 @@ using verif::range;
 struct Profile {
   bool checks = false, formats = false, cardinality = false, argConstraints = false, handlerConstraints = false;
   bool containers = true, containerOptions = true, multiValue = true, optionalValue = false;
+  int multiValuePct = 40;   // share of the container arguments that take multiple values
   bool inertExtras = false;      // hidden / deprecated / display flags present but unused
   bool scalars = true, flagsArgs = true;
   bool mandatory = false;
@@ -248,7 +249,7 @@ inline void genContainerOptions(ArgDef &a, int kind, const Profile &pf) {
   }
   if (kv && a.listSep == ',' ) a.listSep = 0;
   if (kv && a.pairFormat.empty() && a.listSep == ',') a.listSep = 0;
-  if (pf.multiValue && pick(40)) a.multiValue = true;
+  if (pf.multiValue && pick(pf.multiValuePct)) a.multiValue = true;
   if ((isSeqLike(kind) || isBits(kind) || kv) && pick(30)) a.clearFirst = true;
   if (isSortable(kind) && pick(35)) a.sort = true;
   if ((hasIterators(kind) || kind == K_ARRAY3 || kind == K_CARRAY3 || kv) && pick(40)) a.unique = pick(75) ? 1 : 2;
